@@ -1,31 +1,22 @@
-(* Model/PingKnown.v — decidable predicates characterising the recorded defect classes of C19
-   (column 3 of the dispatch output; hypotheses of the _partial theorems). *)
+(* Model/PingKnown.v — frame classes that WERE recorded defect classes of C19 and have been closed
+   by repairs in /repo (kept as decidable predicates so that the regression examples in
+   Properties/C19.v can name them; no open frame class is left: Proofs/PingFrame.v frame_agree is
+   unconditional).
+     iphdr     version nibble not 4 / not 6            closed by the version guard in Session.Parse
+     family    protocol 58 in IPv4 / 1 in IPv6          closed by the family guard in Session.Parse
+     totallen  IPv4 TotalLength leaves < 8 ICMP bytes   closed by the IP4.Payload() length guard
+     paylen    IPv6 PayloadLength < 8                   closed by the IP6.Payload() length guard *)
 From PV Require Import Base.Prelude Model.Ping Model.PingFrame Spec.PingRFC.
 Open Scope N_scope.
 
-(* frames on which Session.Parse and the RFC reading may disagree about "echo reply for id i" *)
 Definition is_ip4 (f : bytes) : bool := Nat.leb 34 (List.length f) && (word_at f 12 =? 2048).
 Definition is_ip6 (f : bytes) : bool := Nat.leb 54 (List.length f) && (word_at f 12 =? 34525).
 
-(* IPv4 version nibble not 4; IPv6 version nibble not 6: Parse does not look
-   (IHL < 5 was part of this class until /repo 38ef1da made IP4.IsValid reject it) *)
-Definition known_C19_iphdr (f : bytes) : bool :=
-  (is_ip4 f && negb (at_ f 14 / 16 =? 4))
-  || (is_ip6 f && negb (at_ f 14 / 16 =? 6)).
-
-(* ICMPv6 protocol number inside IPv4 / ICMP protocol number inside IPv6: one switch serves both *)
-Definition known_C19_family (f : bytes) : bool :=
+Definition was_C19_iphdr (f : bytes) : bool :=
+  (is_ip4 f && negb (at_ f 14 / 16 =? 4)) || (is_ip6 f && negb (at_ f 14 / 16 =? 6)).
+Definition was_C19_family (f : bytes) : bool :=
   (is_ip4 f && (at_ f 23 =? 58)) || (is_ip6 f && (at_ f 20 =? 1)).
-
-(* IPv4 TotalLength leaves fewer than 8 bytes of ICMP (IHL <= TotalLength < IHL + 8): Parse reads
-   the message to the end of the Ethernet frame instead (TotalLength < IHL is rejected since
-   /repo 38ef1da) *)
-Definition known_C19_totallen (f : bytes) : bool :=
+Definition was_C19_totallen (f : bytes) : bool :=
   is_ip4 f && (4 * (at_ f 14 mod 16) <=? word_at f 16) && (word_at f 16 <? 4 * (at_ f 14 mod 16) + 8).
-
-(* the same for IPv6 (since /repo 28b2fc9 accepts trailing bytes): PayloadLength below 8 *)
-Definition known_C19_paylen (f : bytes) : bool :=
+Definition was_C19_paylen (f : bytes) : bool :=
   is_ip6 f && (word_at f 18 <? 8).
-
-Definition known_C19_frame (f : bytes) : bool :=
-  known_C19_iphdr f || known_C19_family f || known_C19_totallen f || known_C19_paylen f.
